@@ -2320,6 +2320,476 @@ Proof.
   exists exp'. auto.
 Qed.
 
+(* ---------- stage-3 statements with tracking on: the stage-2 lemmas restated for s3 ---------- *)
+Definition PUE_s3 (x : expr) : Prop := s3_expr x = true ->
+  forall exp l L' acc accs ex s e tr Lf Mdyn Mb, Inv3 exp l L' acc accs ex s e tr Lf Mdyn Mb ->
+  Post3 exp l L' acc accs ex s e tr Lf Mdyn Mb (vexpr true x (stack_of (l :: L')) s) (sem_expr (lineno s) e x).
+
+Lemma exprs_u3_s3 : forall es, Forall PUE_s3 es -> forallb s3_expr es = true ->
+  forall exp l L' acc accs ex s e tr Lf Mdyn Mb, Inv3 exp l L' acc accs ex s e tr Lf Mdyn Mb ->
+  Post3 exp l L' acc accs ex s e tr Lf Mdyn Mb (vexpr_list true es (stack_of (l :: L')) s) (sem_exprs (lineno s) e es).
+Proof.
+  intros es HF. induction HF as [|x es Hx HF IH]; intros Hs exp l L' acc accs ex s e tr Lf Mdyn Mb HI.
+  - apply Post3_refl. exact HI.
+  - cbn in Hs. apply andb_true_iff in Hs as [H1 H2].
+    unfold vexpr_list, sem_exprs. cbn [fold_left flat_map].
+    assert (Eln : lineno (vexpr true x (stack_of (l :: L')) s) = lineno s).
+    { destruct (Hx H1 _ _ _ _ _ _ _ _ _ _ _ _ HI) as (? & _ & _ & E & _). exact E. }
+    eapply Post3_seq.
+    + apply (Hx H1 _ _ _ _ _ _ _ _ _ _ _ _ HI).
+    + intros exp1 I1. pose proof (IH H2 _ _ _ _ _ _ _ _ _ _ _ _ I1) as P. rewrite Eln in P. exact P.
+Qed.
+
+Lemma expr_u3_s3 : forall x, PUE_s3 x.
+Proof.
+  intro x. induction x using expr_ind' with (Q := fun _ => True); try exact I; unfold PUE_s3; intros Hs exp l L' acc accs ex s e tr Lf Mdyn Mb HI.
+  - (* ELoad *) cbn [vexpr sem_expr]. apply load_u3. exact HI.
+  - (* EOp *) cbn [vexpr sem_expr s3_expr] in *. rewrite vgo_eq_t, sgo_eq. rewrite s3go_eq in Hs. apply exprs_u3_s3; auto.
+  - (* EAttr *) cbn [vexpr sem_expr s3_expr] in *. apply IHx; auto.
+  - (* ELambda *)
+    cbn [s3_expr] in Hs. rewrite s3go_eq in Hs. apply andb_true_iff in Hs as [Hs Hbody]. apply andb_true_iff in Hs as [Hps Hds].
+    rewrite vexpr_lambda_eq_t, sem_lambda_eq.
+    rewrite push_t by (eapply Inv3_sinv; eauto).
+    set (stk := stack_of (l :: L')). set (A := next_id s). set (s1 := snd (new_scope s KNormal [])).
+    cbv beta iota zeta. rewrite removelast_snoc.
+    destruct (open_scope_u3 exp l L' acc accs ex s e tr Lf Mdyn Mb ps HI) as (I1 & Nx1 & Ln1 & X1 & HAoff & HAd & HAT).
+    fold A in I1, Nx1, X1, HAoff, HAd, HAT. fold s1 in I1, Nx1, Ln1. fold stk in HAoff.
+    destruct (exprs_u3_s3 ds H Hds _ _ _ _ _ _ _ _ _ _ _ _ I1) as (exp2 & X2 & I2 & Ln2 & Nx2).
+    fold stk in I2, Ln2, Nx2. set (s2 := vexpr_list true ds stk s1) in *.
+    assert (HexpA : forall y, In y (exp2 A) <-> In y ps).
+    { intro y. rewrite X2 by lia. unfold upd. rewrite Nat.eqb_refl. reflexivity. }
+    assert (Hnsps : Forall (fun p => p <> n_star) ps).
+    { apply Forall_forall. intros p Hp. rewrite forallb_forall in Hps. apply not_star_neq. apply Hps. exact Hp. }
+    destruct (params_close_u3 exp2 l L' acc accs ex s2 _ _ Lf Mdyn Mb A stk ps I2) as (I3 & Ln3 & Nx3); auto; try lia.
+    fold stk. set (s3 := fold_left (fun s p => store true s (stk ++ [A]) [p] Plain) ps s2) in *.
+    assert (HS3 : SInv (er (with_fd s3 true))) by (rewrite er_with_fd; apply SInv_with_fd; eapply Inv3_sinv; eauto).
+    rewrite push_t by exact HS3. cbv beta iota zeta. change (next_id (with_fd s3 true)) with (next_id s3).
+    set (B := next_id s3).
+    assert (HAex : ~ In A ex).
+    { intro Hin. pose proof (i_exlt _ _ _ _ _ _ _ _ _ (v_f _ _ _ _ _ _ _ _ _ _ _ _ HI) A Hin) as Hlt. cbn [next_id er] in Hlt. unfold A in Hlt. lia. }
+    destruct (fun_frame_ok A B ps [] [] []) as (HFk & HFs & HFd). { intro y. reflexivity. }
+    cbn [map] in HFs.
+    destruct (enter_u3 exp2 l L' acc accs ex s3 e _ Lf Mdyn Mb A ps [] [] (fun_frame ps [] []) I3)
+      as (I4 & Xe & Ln4 & Nx4); auto; try lia.
+    { intros y []. } { apply AllOther_fun_frame. intros y b []. }
+    cbv zeta in I4, Xe, Ln4, Nx4. fold B in I4, Xe, Ln4, Nx4.
+    set (lv := mkL [A] B ps [] []) in *. set (s4 := snd (new_scope (with_fd s3 true) KNormal [])) in *.
+    set (exp4 := upd exp2 B ([] ++ [])) in *.
+    unfold stk at 1. rewrite stackB_eq with (P := ps) (own := []) (Bn := []). fold lv.
+    destruct (IHx Hbody _ _ _ _ _ _ _ _ _ _ _ _ I4) as (exp5 & X5 & I5 & Ln5 & Nx5).
+    set (s5 := vexpr true x (stack_of (lv :: l :: L')) s4) in *.
+    (* leaving: the two pops report nothing *)
+    rewrite !top_snoc.
+    assert (HBT : B <> T). { pose proof (T_lt _ _ _ _ _ _ _ _ _ _ _ _ I3). unfold B. lia. }
+    rewrite (pop_plain_t T BS I0 exp5 s5 Mdyn _ B (v_u _ _ _ _ _ _ _ _ _ _ _ _ I5) HBT).
+    assert (U6 : UI T BS I0 exp5 (with_fd s5 (in_fd s3)) Mdyn ((tr ++ sem_exprs (lineno s1) e ds) ++ sem_expr (lineno s4) (fun_frame ps [] [] :: finalize e) x)).
+    { apply (UI_same T BS I0 exp5 s5); try reflexivity. auto. apply (v_u _ _ _ _ _ _ _ _ _ _ _ _ I5). }
+    rewrite (pop_plain_t T BS I0 exp5 _ Mdyn _ A U6 HAT).
+    rewrite (Inv3_fd _ _ _ _ _ _ _ _ _ _ _ _ I3).
+    pose proof (leave_u3 exp l L' acc accs ex s e tr Lf Mdyn Mb exp5 lv s5 _ _ _ HI I5) as I6.
+    exists exp5. split.
+    { intros i Hi. fold A in Hi. rewrite (X5 i), (Xe i), (X2 i), (X1 i) by lia. reflexivity. }
+    split. { rewrite Ln1 in *. assert (Eln : lineno s4 = lineno s) by congruence. rewrite Eln in I6. rewrite app_assoc. apply I6. lia. }
+    split. cbn [lineno with_fd]. congruence. cbn [next_id with_fd]. lia.
+  - (* EComp *) cbn [s3_expr] in Hs. apply comp_top_u; auto.
+Qed.
+
+Lemma expr_ln3_s3 : forall x ln exp l L' acc accs ex s e tr Lf Mdyn Mb, s3_expr x = true ->
+  Inv3 exp l L' acc accs ex s e tr Lf Mdyn Mb ->
+  let s' := vexpr true x (stack_of (l :: L')) (with_ln s ln) in
+  PostS3 exp l L' acc accs ex s e tr Lf Mdyn Mb s' e (sem_expr ln e x) [] /\ lineno s' = ln.
+Proof.
+  intros x ln exp l L' acc accs ex s e tr Lf Mdyn Mb Hx HI. cbv zeta.
+  pose proof (expr_u3_s3 x Hx _ _ _ _ _ _ _ _ _ _ _ _ (Inv3_with_ln _ _ _ _ _ _ _ _ _ _ _ _ ln HI)) as P.
+  split. apply Post3_S3 in P. exact P. destruct P as (? & _ & _ & E & _). exact E.
+Qed.
+
+Lemma expr_cur3_s3 : forall x exp l L' acc accs ex s e tr Lf Mdyn Mb, s3_expr x = true ->
+  Inv3 exp l L' acc accs ex s e tr Lf Mdyn Mb ->
+  let s' := vexpr true x (stack_of (l :: L')) s in
+  PostS3 exp l L' acc accs ex s e tr Lf Mdyn Mb s' e (sem_expr (lineno s) e x) [] /\ lineno s' = lineno s.
+Proof.
+  intros x exp l L' acc accs ex s e tr Lf Mdyn Mb Hx HI. cbv zeta.
+  pose proof (expr_u3_s3 x Hx _ _ _ _ _ _ _ _ _ _ _ _ HI) as P.
+  split. apply Post3_S3 in P. exact P. destruct P as (? & _ & _ & E & _). exact E.
+Qed.
+
+Lemma with_items_u3_s3 : forall ln items exp l L' acc accs ex s e tr Lf Mdyn Mb r,
+  Inv3 exp l L' acc accs ex s e tr Lf Mdyn Mb -> lineno s = ln -> forallb s3_with_item items = true ->
+  incl (flat_map wnames items) (l_B l) -> (Lf = [] -> incl (others (flat_map wnames items)) BS) ->
+  let s' := fold_left (with_item_step true (stack_of (l :: L'))) items s in
+  exists e' r', fold_left (sem_with_step ln) items (e, r) = (e', r ++ r') /\
+    PostS3 exp l L' acc accs ex s e tr Lf Mdyn Mb s' e' r' (others (flat_map wnames items)).
+Proof.
+  intros ln items. induction items as [|[x ot] items IH]; intros exp l L' acc accs ex s e tr Lf Mdyn Mb r HI Hln Hs Hin HBS;
+    cbn [flat_map fold_left] in *.
+  - exists e, []. rewrite app_nil_r. split. reflexivity. apply PostS3_refl. exact HI.
+  - cbn in Hs. apply andb_true_iff in Hs as [H12 H3]. unfold s3_with_item in H12. cbn [fst snd] in H12.
+    apply andb_true_iff in H12 as [H1 H2].
+    unfold with_item_step at 2. cbn [fst snd]. unfold sem_with_step at 2. cbn [fst snd].
+    destruct (expr_cur3_s3 x _ _ _ _ _ _ _ _ _ _ _ _ H1 HI) as (P1 & Ln1). cbv zeta in P1, Ln1. rewrite Hln in P1.
+    change (wnames (x, ot)) with (match ot with Some t => target_names t | None => [] end) in *.
+    rewrite others_app in *.
+    destruct ot as [t|].
+    + set (s1 := vexpr true x (stack_of (l :: L')) s) in *.
+      assert (Hin1 : incl (target_names t) (l_B l)) by (intros y Hy; apply Hin; apply in_app_iff; auto).
+      assert (HBS1 : Lf = [] -> incl (others (target_names t)) BS) by (intros E y Hy; apply (HBS E); apply in_app_iff; auto).
+      assert (Et : exec_target_env ln e t = (ebind_all (others (target_names t)) e, [])).
+      { unfold exec_target_env. rewrite exec_target_s1 by exact H2. reflexivity. }
+      rewrite Et.
+      assert (P2 : PostS3 exp l L' acc accs ex s e tr Lf Mdyn Mb (vtarget true t (stack_of (l :: L')) s1)
+                          (ebind_all (others (target_names t)) e) (sem_expr ln e x) ([] ++ others (target_names t))).
+      { eapply PostS3_then_bind. exact P1. intros exp1 I1.
+        destruct (target_u3 t _ _ _ _ _ _ _ _ _ _ _ _ I1 H2 Hin1 HBS1) as (I2 & N2 & _). cbv zeta in I2, N2.
+        rewrite map_fst_others. split. exact I2. exact N2. }
+      cbn [app] in P2.
+      assert (Ln2 : lineno (vtarget true t (stack_of (l :: L')) s1) = ln).
+      { destruct P1 as (expa & _ & Ia & _). cbn [map] in Ia. rewrite app_nil_r, mdyn_nil, mbot_nil in Ia.
+        destruct (target_u3 t _ _ _ _ _ _ _ _ _ _ _ _ Ia H2 Hin1 HBS1) as (_ & _ & Lnx). cbv zeta in Lnx. rewrite Lnx, Ln1. exact Hln. }
+      destruct P2 as (exp2 & X2 & I2 & N2).
+      destruct (IH _ _ _ _ _ _ _ _ _ _ _ _ (r ++ sem_expr ln e x ++ []) I2 Ln2 H3) as (e' & r' & E' & P').
+      { intros y Hy. apply Hin. apply in_app_iff. auto. }
+      { intros E y Hy. apply (HBS E). apply in_app_iff. auto. }
+      exists e', ((sem_expr ln e x ++ []) ++ r'). rewrite E'. split. rewrite !app_assoc. reflexivity.
+      rewrite app_nil_r.
+      eapply PostS3_seq. exists exp2. split. exact X2. split. exact I2. exact N2. intros exp3 I3.
+      destruct (IH _ _ _ _ _ _ _ _ _ _ _ _ (r ++ sem_expr ln e x ++ []) I3 Ln2 H3) as (e'' & r'' & E'' & P'').
+      { intros y Hy. apply Hin. apply in_app_iff. auto. }
+      { intros E y Hy. apply (HBS E). apply in_app_iff. auto. }
+      rewrite E' in E''. injection E'' as <- Er. apply app_inv_head in Er. subst r''. exact P''.
+    + cbn [others map app] in *.
+      assert (Ln2 : lineno (vexpr true x (stack_of (l :: L')) s) = ln) by congruence.
+      destruct P1 as (exp2 & X2 & I2 & N2). pose proof I2 as I2'. cbn [map] in I2'. rewrite app_nil_r, mdyn_nil, mbot_nil in I2'.
+      destruct (IH _ _ _ _ _ _ _ _ _ _ _ _ (r ++ sem_expr ln e x) I2' Ln2 H3 Hin HBS) as (e' & r' & E' & P').
+      exists e', (sem_expr ln e x ++ r'). rewrite E'. split. rewrite !app_assoc. reflexivity.
+      change (others (flat_map wnames items)) with ([] ++ others (flat_map wnames items)).
+      eapply PostS3_seq. exists exp2. split. exact X2. split. exact I2. exact N2. intros exp3 I3.
+      cbn [map] in I3 |- *. rewrite app_nil_r, mdyn_nil, mbot_nil in *.
+      destruct (IH _ _ _ _ _ _ _ _ _ _ _ _ (r ++ sem_expr ln e x) I3 Ln2 H3 Hin HBS) as (e'' & r'' & E'' & P'').
+      rewrite E' in E''. injection E'' as <- Er. apply app_inv_head in Er. subst r''. exact P''.
+Qed.
+
+Lemma decos_u3_s3 : forall decos exp l L' acc accs ex s e tr Lf Mdyn Mb,
+  Inv3 exp l L' acc accs ex s e tr Lf Mdyn Mb -> forallb (fun d : nat * expr => s3_expr (snd d)) decos = true ->
+  PostS3 exp l L' acc accs ex s e tr Lf Mdyn Mb (vdecos true decos (stack_of (l :: L')) s) e (sem_decos e decos) [].
+Proof.
+  induction decos as [|[dl d] decos IH]; intros exp l L' acc accs ex s e tr Lf Mdyn Mb HI Hs.
+  - apply PostS3_refl. exact HI.
+  - cbn in Hs. apply andb_true_iff in Hs as [H1 H2]. unfold vdecos, sem_decos. cbn [fold_left flat_map fst snd].
+    change (@nil (name * bsrc)) with (@nil (name * bsrc) ++ []).
+    eapply PostS3_seq. apply (expr_ln3_s3 d dl); eauto. intros exp1 I1. cbn [map] in I1 |- *.
+    rewrite app_nil_r, mdyn_nil, mbot_nil in *. apply IH; auto.
+Qed.
+
+Definition PUS_s3 (x : stmt) : Prop := s3_stmt x = true -> noimp_stmt x = true ->
+  forall exp l L' acc accs ex s e tr Lf Mdyn Mb, Inv3 exp l L' acc accs ex s e tr Lf Mdyn Mb ->
+  incl (NS x) (l_B l) -> (Lf = [] -> incl (bsrcs false x) BS) ->
+  forall e' rds, sem_stmt e x = (e', rds) ->
+  PostS3 exp l L' acc accs ex s e tr Lf Mdyn Mb (vstmt true x (stack_of (l :: L')) s) e' rds (bsrcs false x).
+
+Definition PUB_s3 (b : list stmt) : Prop := s3_block b = true -> forallb noimp_stmt b = true ->
+  forall exp l L' acc accs ex s e tr Lf Mdyn Mb, Inv3 exp l L' acc accs ex s e tr Lf Mdyn Mb ->
+  incl (binds_block false b) (l_B l) -> (Lf = [] -> incl (bsrcs_block false b) BS) ->
+  forall e' rds, sem_block b e = (e', rds) ->
+  PostS3 exp l L' acc accs ex s e tr Lf Mdyn Mb (vblock true b (stack_of (l :: L')) s) e' rds (bsrcs_block false b).
+
+Lemma block_u3_s3 : forall b, Forall PUS_s3 b -> PUB_s3 b.
+Proof.
+  induction b as [|x b IH]; intros HF Hs Hn exp l L' acc accs ex s e tr Lf Mdyn Mb HI Hin HBS e' rds E.
+  - cbn in E. injection E as <- <-. apply PostS3_refl. exact HI.
+  - inversion HF as [|? ? Hx HF']; subst. cbn in Hs, Hn. apply andb_true_iff in Hs as [H1 H2]. apply andb_true_iff in Hn as [N1 N2].
+    cbn [sem_block] in E. destruct (sem_stmt e x) as [e1 r1] eqn:E1. destruct (sem_block b e1) as [e2 r2] eqn:E2.
+    injection E as <- <-.
+    unfold binds_block, bsrcs_block in *. cbn [flat_map] in *. rewrite map_app in Hin. fold (NS x) in *.
+    unfold vblock. cbn [fold_left]. eapply PostS3_seq.
+    + apply (Hx H1 N1 _ _ _ _ _ _ _ _ _ _ _ _ HI). intros y Hy. apply Hin. apply in_app_iff. auto.
+      intros E y Hy. apply (HBS E). apply in_app_iff. auto. exact E1.
+    + intros exp1 I1. apply (IH HF' H2 N2 _ _ _ _ _ _ _ _ _ _ _ _ I1). intros y Hy. apply Hin. apply in_app_iff. auto.
+      intros E y Hy. apply (HBS E). apply in_app_iff. auto. exact E2.
+Qed.
+
+Lemma all_PUE_s3 : forall es, Forall PUE_s3 es.
+Proof. intro es. apply Forall_forall. intros x _. apply expr_u3_s3. Qed.
+
+Lemma def_u3_s3 : forall ln nm decos ps ret body, PUB_s3 body -> PUS_s3 (SDef ln nm decos ps ret body).
+Proof.
+  intros ln nm decos ps ret body IHb Hs Hnoimp exp l L' acc accs ex s e tr Lf Mdyn Mb HI Hin HBS e' rds Esem.
+  cbn [s3_stmt noimp_stmt] in Hs, Hnoimp. rewrite s3_blk_fix in Hs. rewrite noimp_blk_fix in Hnoimp.
+  apply andb_true_iff in Hs as [Hs Hbody]. apply andb_true_iff in Hs as [Hs Hret].
+  apply andb_true_iff in Hs as [Hs Hps]. apply andb_true_iff in Hs as [Hnm Hdecos].
+  apply not_star_neq in Hnm.
+  destruct (s3_params_facts ps Hps) as [Hhdr Hpn].
+  rewrite sem_stmt_def in Esem. cbv zeta in Esem.
+  destruct (sem_block body (fun_frame (params_names ps) (bsrcs_block false body) (binds_block true body) :: finalize e))
+    as [eb r1] eqn:Eb. injection Esem as <- <-.
+  unfold NS in *. cbn [bsrcs map fst] in *.
+  rewrite vstmt_def_eq_t. cbv zeta.
+  set (stk := stack_of (l :: L')).
+  (* decorators *)
+  destruct (decos_u3_s3 decos _ _ _ _ _ _ _ _ _ _ _ _ (Inv3_with_ln _ _ _ _ _ _ _ _ _ _ _ _ ln HI) Hdecos) as (exp0 & X0 & I0' & N0).
+  fold stk in I0', N0. cbn [map] in I0'. rewrite app_nil_r, mdyn_nil, mbot_nil in I0'.
+  set (s0 := vdecos true decos stk (with_ln s ln)) in *.
+  change (next_id (with_ln s ln)) with (next_id s) in X0, N0.
+  rewrite push_t by (eapply Inv3_sinv; eauto). set (A := next_id s0). set (s1 := snd (new_scope s0 KNormal [])).
+  cbv beta iota zeta. rewrite removelast_snoc.
+  set (P := params_names ps).
+  destruct (open_scope_u3 exp0 l L' acc accs ex s0 e _ Lf Mdyn Mb P I0') as (I1 & Nx1 & Ln1 & X1 & HAoff & HAd & HAT).
+  fold A in I1, Nx1, X1, HAoff, HAd, HAT. fold s1 in I1, Nx1, Ln1. fold stk in HAoff.
+  assert (Hcd1 : in_cd s1 = 0). { change (in_cd s1) with (in_cd (er s1)). apply sv_cd. eapply Inv3_sinv; eauto. }
+  rewrite Hcd1. change (Nat.ltb 0 0) with false. cbv iota.
+  (* header expressions, in the enclosing scope *)
+  rewrite varguments_eq_t, removelast_snoc.
+  destruct (exprs_u3_s3 (hdr_finder ps) (all_PUE_s3 _) Hhdr _ _ _ _ _ _ _ _ _ _ _ _ (Inv3_with_ln _ _ _ _ _ _ _ _ _ _ _ _ ln I1))
+    as (exp2 & X2 & I2 & Ln2 & Nx2).
+  fold stk in I2, Ln2, Nx2. set (s2 := vexpr_list true (hdr_finder ps) stk (with_ln s1 ln)) in *.
+  change (next_id (with_ln s1 ln)) with (next_id s1) in X2, Nx2.
+  change (lineno (with_ln s1 ln)) with ln in Ln2, I2.
+  (* parameters *)
+  assert (HexpA : forall y, In y (exp2 A) <-> In y (pnames_finder ps)).
+  { intro y. rewrite X2 by lia. unfold upd. rewrite Nat.eqb_refl. symmetry. apply pnames_perm. }
+  destruct (params_close_u3 exp2 l L' acc accs ex s2 _ _ Lf Mdyn Mb A stk (pnames_finder ps) I2) as (I3 & Ln3 & Nx3); auto; try lia.
+  fold stk. set (s3 := fold_left (fun s p => store true s (stk ++ [A]) [p] Plain) (pnames_finder ps) s2) in *.
+  (* the return annotation *)
+  assert (Pret : Post3 exp2 l L' acc accs ex s3 e ((tr ++ sem_decos e decos) ++ sem_exprs ln e (hdr_finder ps)) Lf Mdyn Mb
+                       (voexpr true ret stk s3) (sem_oexpr (lineno s3) e ret)).
+  { destruct ret as [r|]; cbn [voexpr sem_oexpr s3_oexpr] in *. apply expr_u3_s3; auto. apply Post3_refl; auto. }
+  destruct Pret as (exp4 & X4 & I4 & Ln4 & Nx4). set (s4 := voexpr true ret stk s3) in *.
+  rewrite Ln3, Ln2 in I4.
+  (* the body scope *)
+  assert (HS4 : SInv (er (with_fd s4 true))) by (rewrite er_with_fd; apply SInv_with_fd; eapply Inv3_sinv; eauto).
+  rewrite push_t by exact HS4. cbv beta iota zeta. change (next_id (with_fd s4 true)) with (next_id s4).
+  set (B := next_id s4). set (s6 := snd (new_scope (with_fd s4 true) KNormal [])).
+  assert (Hcd6 : in_cd s6 = 0).
+  { change (in_cd s6) with (in_cd (er s4)). apply sv_cd. eapply Inv3_sinv; eauto. }
+  rewrite Hcd6. change (Nat.eqb 0 0) with true. cbv iota.
+  assert (HBT : B <> T). { pose proof (T_lt _ _ _ _ _ _ _ _ _ _ _ _ I4). unfold B. lia. }
+  assert (Hno6 : forall c, dict_get (scope_dict s6 (top ((stk ++ [A]) ++ [B]))) [nm] <> Some (Chk c)).
+  { intro c. rewrite top_snoc. unfold s6. rewrite scope_dict_new_gen.
+    - change (next_id (with_fd s4 true)) with B. rewrite Nat.eqb_refl. cbn. discriminate.
+    - apply fresh_er. rewrite er_with_fd. apply (sv_fresh _ (SInv_with_fd _ _ (Inv3_sinv _ _ _ _ _ _ _ _ _ _ _ _ I4))). }
+  rewrite (store_true_noreport s6) by exact Hno6. rewrite !top_snoc.
+  set (Bn := binds_block false body).
+  set (F := fun_frame P (bsrcs_block false body) (binds_block true body)) in *.
+  destruct (fun_frame_ok A B P [nm] (bsrcs_block false body) (binds_block true body)) as (HFk & HFs & HFd).
+  { intro y. rewrite (s3_binds_all body Hbody). reflexivity. }
+  fold F in HFk, HFs, HFd. change (map fst (bsrcs_block false body)) with Bn in HFs.
+  assert (HAex : ~ In A ex).
+  { intro Hi. pose proof (i_exlt _ _ _ _ _ _ _ _ _ (v_f _ _ _ _ _ _ _ _ _ _ _ _ I0') A Hi) as Hlt. cbn [next_id er] in Hlt. unfold A in Hlt. lia. }
+  assert (HexpA4 : forall y, In y (exp4 A) <-> In y P).
+  { intro y. rewrite X4 by lia. rewrite X2 by lia. unfold upd. rewrite Nat.eqb_refl. reflexivity. }
+  destruct (enter_u3 exp4 l L' acc accs ex s4 e _ Lf Mdyn Mb A P [nm] Bn F I4)
+    as (I7 & Xe & Ln7 & Nx7); auto; try lia.
+  { right. exists nm. auto. }
+  { apply AllOther_fun_frame. apply noimp_block_other'. exact Hnoimp. }
+  { intros E y [<-|[]] li ii Hf. pose proof (once_unique BS I0 nm li ii BOther HO Hf (HBS E _ (or_introl eq_refl))). discriminate. }
+  cbv zeta in I7, Xe, Ln7, Nx7. cbv iota in I7, Ln7, Nx7. fold B s6 in I7, Xe, Ln7, Nx7.
+  set (lv := mkL [A] B P [nm] Bn) in *. set (s7 := set_in_scope s6 B [nm] Plain) in *.
+  set (exp7 := upd exp4 B ([nm] ++ Bn)) in *.
+  unfold stk at 1. rewrite stackB_eq with (P := P) (own := [nm]) (Bn := Bn). fold lv.
+  destruct (IHb Hbody Hnoimp _ _ _ _ _ _ _ _ _ _ _ _ I7 (incl_refl _)) with (e' := eb) (rds := r1) as (exp8 & X8 & I8 & N8).
+  { intro E. discriminate. } { exact Eb. }
+  cbn [app] in I8. cbn [mdyn mbot is_nil] in I8. fold Bn in I8.
+  set (s8 := vblock true body (stack_of (lv :: l :: L')) s7) in *.
+  (* leaving *)
+  rewrite (pop_plain_t T BS I0 exp8 s8 Mdyn _ B (v_u _ _ _ _ _ _ _ _ _ _ _ _ I8) HBT).
+  assert (U9 : UI T BS I0 exp8 (with_fd s8 (in_fd s4)) Mdyn
+                  ((((tr ++ sem_decos e decos) ++ sem_exprs ln e (hdr_finder ps)) ++ sem_oexpr ln e ret) ++ r1)).
+  { apply (UI_same T BS I0 exp8 s8); try reflexivity. auto. apply (v_u _ _ _ _ _ _ _ _ _ _ _ _ I8). }
+  rewrite (pop_plain_t T BS I0 exp8 _ Mdyn _ A U9 HAT).
+  rewrite (Inv3_fd _ _ _ _ _ _ _ _ _ _ _ _ I4).
+  pose proof (leave_u3 exp l L' acc accs ex s e tr Lf Mdyn Mb exp8 lv s8 _ _ _ HI I8) as I9.
+  set (s9 := with_fd s8 (negb (Nat.eqb (length (l :: L')) 1))) in *.
+  assert (I9' : Inv3 exp8 l L' acc accs ex s9 e
+                  ((((tr ++ sem_decos e decos) ++ sem_exprs ln e (hdr_finder ps)) ++ sem_oexpr ln e ret) ++ r1) Lf Mdyn Mb).
+  { apply I9. lia. }
+  destruct (store_name_u3 _ _ _ _ _ _ _ _ _ _ _ _ nm I9' Hnm (Hin nm (or_introl eq_refl))) as (I10 & N10 & _).
+  { intro E. apply (HBS E). left. reflexivity. }
+  cbv zeta in I10, N10. fold stk in I10, N10.
+  exists exp8. split.
+  { intros i Hi. rewrite (X8 i), (Xe i), (X4 i), (X2 i), (X1 i), (X0 i) by lia. reflexivity. }
+  split; [|change (next_id s9) with (next_id s8) in N10; lia].
+  cbn [map fst]. 
+  assert (Em : mdyn Lf [(nm, BOther)] Mdyn = (if is_nil Lf then (nm, BOther) :: Mdyn else Mdyn)) by (destruct Lf; reflexivity).
+  assert (Eb' : mbot Lf [(nm, BOther)] Mb = (if is_nil Lf then bind nm BOther Mb else Mb)) by (destruct Lf; reflexivity).
+  rewrite Em, Eb'.
+  eapply Inv3_perm; [|exact I10].
+  intro x. pose proof (sem_exprs_perm ln e _ _ (hdr_perm ps ret) x) as Hp.
+  rewrite sem_exprs_app, in_app_iff in Hp. rewrite sem_oexpr_eq. rewrite !in_app_iff. tauto.
+Qed.
+
+Lemma stmt_u3_s3 : forall x, PUS_s3 x.
+Proof.
+  induction x using stmt_ind'; try (intros Hs; discriminate); try (intros Hs Hn; discriminate); try rename e into e0;
+    intros Hs Hn exp l L' acc accs ex s e tr Lf Mdyn Mb HI Hin HBS e' rds Esem; unfold NS in *.
+  - (* SExpr *)
+    cbn in Esem. injection Esem as <- <-. cbn [s3_stmt vstmt bsrcs map] in *.
+    apply (expr_ln3_s3 e0 ln); auto.
+  - (* SAssign *)
+    cbn [s3_stmt] in Hs. apply andb_true_iff in Hs as [H1 H2].
+    rewrite sem_stmt_assign in Esem. cbv zeta in Esem. cbn [vstmt bsrcs] in *. rewrite tgo_eq in *. rewrite map_fst_others in Hin.
+    destruct (expr_ln3_s3 v ln _ _ _ _ _ _ _ _ _ _ _ _ H1 HI) as (P1 & Ln1). cbv zeta in P1, Ln1.
+    assert (Et : fold_left (sem_target_step ln) ts (e, []) = (ebind_all (others (flat_map target_names ts)) e, [])).
+    { destruct P1 as (expa & _ & Ia & _). cbn [map] in Ia. rewrite app_nil_r in Ia.
+      destruct (targets_inv ln ts _ _ _ _ _ _ _ _ _ [] (v_f _ _ _ _ _ _ _ _ _ _ _ _ Ia) H2 Hin) as (E & _). exact E. }
+    rewrite Et in Esem. injection Esem as <- <-. rewrite app_nil_r.
+    change (others (flat_map target_names ts)) with ([] ++ others (flat_map target_names ts)) at 2.
+    eapply PostS3_then_bind. exact P1. intros exp1 I1.
+    destruct (targets_u3 ts _ _ _ _ _ _ _ _ _ _ _ _ I1 H2) as (I2 & N2 & _). { exact Hin. } { exact HBS. }
+    cbv zeta in I2, N2. rewrite map_fst_others. split. exact I2. exact N2.
+  - (* SAugAssign *)
+    cbn [s3_stmt] in Hs. apply andb_true_iff in Hs as [H12 H3]. apply andb_true_iff in H12 as [H1 H2].
+    apply is_nil_true in H1. subst a. apply not_star_neq in H2.
+    cbn in Esem. injection Esem as <- <-. cbn [vstmt bsrcs map fst] in *.
+    change [(n, BOther)] with ([] ++ others [n]).
+    change ((ln, n, resolve n e) :: sem_expr ln e v) with ([(ln, n, resolve n e)] ++ sem_expr ln e v).
+    eapply PostS3_then_bind.
+    2:{ intros exp2 I2.
+        destruct (binds_u3 [n] _ _ _ _ _ _ _ _ _ _ _ _ I2) as (I3 & N3 & _).
+        { constructor; auto. } { exact Hin. } { exact HBS. }
+        cbv zeta in I3, N3. cbn [fold_left] in I3, N3. rewrite map_fst_others. split. exact I3. exact N3. }
+    change (@nil (name * bsrc)) with (@nil (name * bsrc) ++ []).
+    eapply PostS3_seq.
+    { destruct (load_u3 _ _ _ _ _ _ _ _ _ _ _ _ n [] (Inv3_with_ln _ _ _ _ _ _ _ _ _ _ _ _ ln HI)) as (exp1 & X1 & I1 & Ln1 & N1).
+      exists exp1. cbn [map]. rewrite app_nil_r, mdyn_nil, mbot_nil. split. exact X1. split. exact I1. exact N1. }
+    intros exp1 I1.
+    assert (Ln1 : lineno (load (with_ln s ln) (stack_of (l :: L')) [n]) = ln).
+    { destruct (load_u3 _ _ _ _ _ _ _ _ _ _ _ _ n [] (Inv3_with_ln _ _ _ _ _ _ _ _ _ _ _ _ ln HI)) as (? & _ & _ & Lnx & _). exact Lnx. }
+    destruct (expr_cur3_s3 v _ _ _ _ _ _ _ _ _ _ _ _ H3 I1) as (P2 & _). cbv zeta in P2. rewrite Ln1 in P2. exact P2.
+  - (* SDef *)
+    apply (def_u3_s3 ln nm decos ps ret body (block_u3_s3 body H) Hs Hn _ _ _ _ _ _ _ _ _ _ _ _ HI Hin HBS _ _ Esem).
+  - (* SFor *)
+    cbn [s3_stmt noimp_stmt] in Hs, Hn. rewrite !s3_blk_fix in Hs. rewrite !noimp_blk_fix in Hn.
+    apply andb_true_iff in Hs as [H123 H4]. apply andb_true_iff in H123 as [H12 H3]. apply andb_true_iff in H12 as [H1 H2].
+    apply andb_true_iff in Hn as [Nb No].
+    rewrite vstmt_for. rewrite sem_stmt_for in Esem. cbv zeta in Esem.
+    cbn [bsrcs] in *. rewrite !bsrcs_blk_fix in *. rewrite !map_app, map_fst_others in Hin.
+    fold (binds_block false b) (binds_block false o) in *.
+    assert (Et : exec_target_env ln e t = (ebind_all (others (target_names t)) e, [])).
+    { unfold exec_target_env. rewrite exec_target_s1 by exact H1. reflexivity. }
+    rewrite Et in Esem.
+    destruct (sem_block b (ebind_all (others (target_names t)) e)) as [e2 r2] eqn:E2.
+    destruct (sem_block o e2) as [e3 r3] eqn:E3. injection Esem as <- <-.
+    change (others (target_names t) ++ bsrcs_block false b ++ bsrcs_block false o)
+      with (([] ++ others (target_names t)) ++ bsrcs_block false b ++ bsrcs_block false o).
+    eapply PostS3_seq.
+    { eapply PostS3_then_bind. apply (expr_ln3_s3 it ln); eauto. intros exp1 I1.
+      destruct (target_u3 t _ _ _ _ _ _ _ _ _ _ _ _ I1 H1) as (I2 & N2 & _).
+      { exact (incl_app_l _ _ _ _ Hin). } { intros E. exact (incl_app_l _ _ _ _ (HBS E)). }
+      cbv zeta in I2, N2. rewrite map_fst_others. split. exact I2. exact N2. }
+    intros exp2 I2.
+    eapply PostS3_seq.
+    { apply (block_u3_s3 b H H3 Nb _ _ _ _ _ _ _ _ _ _ _ _ I2 (incl_app_l _ _ _ _ (incl_app_r _ _ _ _ Hin))). 
+      intros E. exact (incl_app_l _ _ _ _ (incl_app_r _ _ _ _ (HBS E))). exact E2. }
+    intros exp3 I3.
+    apply (block_u3_s3 o H0 H4 No _ _ _ _ _ _ _ _ _ _ _ _ I3 (incl_app_r _ _ _ _ (incl_app_r _ _ _ _ Hin))).
+    intros E. exact (incl_app_r _ _ _ _ (incl_app_r _ _ _ _ (HBS E))). exact E3.
+  - (* SWhile *)
+    cbn [s3_stmt noimp_stmt] in Hs, Hn. rewrite !s3_blk_fix in Hs. rewrite !noimp_blk_fix in Hn.
+    apply andb_true_iff in Hs as [H12 H3]. apply andb_true_iff in H12 as [H1 H2]. apply is_nil_true in H3. subst o.
+    apply andb_true_iff in Hn as [Nb _].
+    rewrite vstmt_while. rewrite sem_stmt_while in Esem. cbv zeta in Esem.
+    cbn [bsrcs] in *. rewrite !bsrcs_blk_fix in *. rewrite app_nil_r in *. fold (binds_block false b) in *.
+    destruct (sem_block b e) as [e2 r2] eqn:E2. injection Esem as <- <-.
+    change (bsrcs_block false b) with ([] ++ bsrcs_block false b). unfold vblock at 1. cbn [fold_left].
+    eapply PostS3_seq. apply (expr_ln3_s3 t ln); eauto. intros exp1 I1.
+    apply (block_u3_s3 b H H2 Nb _ _ _ _ _ _ _ _ _ _ _ _ I1 Hin HBS _ _ E2).
+  - (* SIf *)
+    cbn [s3_stmt noimp_stmt] in Hs, Hn. rewrite !s3_blk_fix in Hs. rewrite !noimp_blk_fix in Hn.
+    apply andb_true_iff in Hs as [H12 H3]. apply andb_true_iff in H12 as [H1 H2]. apply is_nil_true in H3. subst o.
+    apply andb_true_iff in Hn as [Nb _].
+    rewrite vstmt_if. rewrite sem_stmt_if in Esem. cbv zeta in Esem.
+    cbn [bsrcs] in *. rewrite !bsrcs_blk_fix in *. rewrite app_nil_r in *. fold (binds_block false b) in *.
+    destruct (sem_block b e) as [e2 r2] eqn:E2. injection Esem as <- <-.
+    change (bsrcs_block false b) with ([] ++ bsrcs_block false b). unfold vblock at 1. cbn [fold_left].
+    eapply PostS3_seq. apply (expr_ln3_s3 t ln); eauto. intros exp1 I1.
+    apply (block_u3_s3 b H H2 Nb _ _ _ _ _ _ _ _ _ _ _ _ I1 Hin HBS _ _ E2).
+  - (* SWith *)
+    cbn [s3_stmt noimp_stmt] in Hs, Hn. rewrite !s3_blk_fix in Hs. rewrite !noimp_blk_fix in Hn. apply andb_true_iff in Hs as [H1 H2].
+    rewrite vstmt_with. rewrite sem_stmt_with in Esem.
+    cbn [bsrcs] in *. rewrite !bsrcs_blk_fix in *. rewrite map_app, map_fst_others in Hin. fold (binds_block false b) in *.
+    change (flat_map (fun it : expr * option target => match snd it with Some t => target_names t | None => [] end) items)
+      with (flat_map wnames items) in *.
+    destruct (with_items_u3_s3 ln items _ _ _ _ _ _ _ _ _ _ _ _ [] (Inv3_with_ln _ _ _ _ _ _ _ _ _ _ _ _ ln HI) eq_refl H1 (incl_app_l _ _ _ _ Hin))
+      as (e1 & r1 & E1 & P1).
+    { intros E. exact (incl_app_l _ _ _ _ (HBS E)). }
+    cbv zeta in P1. rewrite E1 in Esem. cbn [app] in Esem.
+    destruct (sem_block b e1) as [e2 r2] eqn:E2. injection Esem as <- <-.
+    eapply PostS3_seq.
+    { destruct P1 as (exp1 & X1 & I1 & N1). exists exp1. split. exact X1. split. exact I1. exact N1. }
+    intros exp1 I1. apply (block_u3_s3 b H H2 Hn _ _ _ _ _ _ _ _ _ _ _ _ I1). exact (incl_app_r _ _ _ _ Hin).
+    intros E. exact (incl_app_r _ _ _ _ (HBS E)). exact E2.
+  - (* STry *)
+    cbn [s3_stmt noimp_stmt] in Hs, Hn. rewrite !s3_blk_fix in Hs. rewrite !noimp_blk_fix in Hn.
+    apply andb_true_iff in Hs as [Habc Hd]. apply andb_true_iff in Habc as [Hab Hc]. apply andb_true_iff in Hab as [Ha Hb].
+    apply is_nil_true in Hb. subst hs.
+    apply andb_true_iff in Hn as [Hn Nd]. apply andb_true_iff in Hn as [Hn Nc]. apply andb_true_iff in Hn as [Na _].
+    rewrite vstmt_try_nohandler. rewrite sem_stmt_try in Esem.
+    cbn [bsrcs] in *. rewrite !bsrcs_blk_fix in *. cbn [app] in *. rewrite !map_app in Hin.
+    fold (binds_block false b) (binds_block false o) (binds_block false f) in *.
+    destruct (sem_block b e) as [e1 r1] eqn:E1. destruct (sem_block o e1) as [e2 r2] eqn:E2.
+    destruct (sem_block f e2) as [e3 r3] eqn:E3. injection Esem as <- <-.
+    eapply PostS3_seq.
+    { destruct (block_u3_s3 b H Ha Na _ _ _ _ _ _ _ _ _ _ _ _ (Inv3_with_ln _ _ _ _ _ _ _ _ _ _ _ _ ln HI) (incl_app_l _ _ _ _ Hin)) with (e' := e1) (rds := r1)
+        as (exp1 & X1 & I1 & N1). intros E. exact (incl_app_l _ _ _ _ (HBS E)). exact E1.
+      exists exp1. split. exact X1. split. exact I1. exact N1. }
+    intros exp1 I1. eapply PostS3_seq.
+    { apply (block_u3_s3 o H1 Hc Nc _ _ _ _ _ _ _ _ _ _ _ _ I1 (incl_app_l _ _ _ _ (incl_app_r _ _ _ _ Hin))).
+      intros E. exact (incl_app_l _ _ _ _ (incl_app_r _ _ _ _ (HBS E))). exact E2. }
+    intros exp2 I2.
+    apply (block_u3_s3 f H2 Hd Nd _ _ _ _ _ _ _ _ _ _ _ _ I2 (incl_app_r _ _ _ _ (incl_app_r _ _ _ _ Hin))).
+    intros E. exact (incl_app_r _ _ _ _ (incl_app_r _ _ _ _ (HBS E))). exact E3.
+  - (* SPass *)
+    cbn in Esem. injection Esem as <- <-. cbn [vstmt bsrcs map].
+    destruct (PostS3_refl _ _ _ _ _ _ _ _ _ _ _ _ (Inv3_with_ln _ _ _ _ _ _ _ _ _ _ _ _ ln HI)) as (exp1 & X1 & I1 & N1).
+    exists exp1. split. exact X1. split. exact I1. exact N1.
+Qed.
+
+Lemma top_other_s3 : forall x, s3_stmt x = true -> noimp_stmt x = true -> TopStep x.
+Proof.
+  intros x Hs Hn exp acc accs ex s e tr Mdyn Mb done rest H3 Hacc HBS Hp e' rds Esem.
+  destruct (stmt_u3_s3 x Hs Hn _ _ _ _ _ _ _ _ _ _ _ _ H3) with (e' := e') (rds := rds) as (exp' & X & I' & N).
+  - unfold NS. rewrite HB, HBS, !map_app. intros y Hy. apply in_app_iff. right. apply in_app_iff. auto.
+  - intros _ y Hy. rewrite HBS. apply in_app_iff. right. apply in_app_iff. auto.
+  - exact Esem.
+  - exists exp', (mdyn [] (bsrcs false x) Mdyn), (mbot [] (bsrcs false x) Mb). split. exact X. split. exact I'. split. exact N.
+    rewrite (pairs_stmt3 x Hs Hn), Hp, imp_events_app, (imp_events_other (bsrcs false x)). rewrite app_nil_r. reflexivity.
+    apply noimp_other. exact Hn.
+Qed.
+
+Lemma top_step_s3 : forall x, u3_top x = true -> TopStep x.
+Proof.
+  intros x H. destruct x; cbn [u3_top] in H;
+    try (apply andb_true_iff in H as [H1 H2]; apply top_other_s3; assumption).
+  - apply top_import. exact H.
+  - apply andb_true_iff in H as [H1 H2]. apply top_from; assumption.
+Qed.
+
+Lemma top_block_s3 : forall p2 exp acc accs ex s e tr Mdyn Mb done rest,
+  u3_block p2 = true ->
+  Inv3 exp lm [] acc accs ex s e tr [] Mdyn Mb -> acc = map fst done -> BS = done ++ bsrcs_block false p2 ++ rest ->
+  pairs s = imp_events done ->
+  forall e' rds, sem_block p2 e = (e', rds) ->
+  exists exp' Mdyn' Mb',
+    Inv3 exp' lm [] (acc ++ binds_block false p2) accs ex (vblock true p2 (stack_of [lm]) s) e' (tr ++ rds) [] Mdyn' Mb' /\
+    pairs (vblock true p2 (stack_of [lm]) s) = imp_events (done ++ bsrcs_block false p2).
+Proof.
+  induction p2 as [|x p2 IH]; intros exp acc accs ex s e tr Mdyn Mb done rest Hu H3 Hacc HBS Hp e' rds E.
+  - cbn in E. injection E as <- <-. exists exp, Mdyn, Mb. cbn. rewrite !app_nil_r. auto.
+  - cbn in Hu. apply andb_true_iff in Hu as [H1 H2].
+    cbn [sem_block] in E. destruct (sem_stmt e x) as [e1 r1] eqn:E1. destruct (sem_block p2 e1) as [e2 r2] eqn:E2.
+    injection E as <- <-.
+    unfold binds_block, bsrcs_block in *. cbn [flat_map] in *. rewrite <- app_assoc in HBS.
+    destruct (top_step_s3 x H1 exp acc accs ex s e tr Mdyn Mb done _ H3 Hacc HBS Hp e1 r1 E1) as (exp1 & Md1 & Mb1 & X1 & I1 & N1 & P1).
+    destruct (IH exp1 (acc ++ NS x) accs ex _ e1 (tr ++ r1) Md1 Mb1 (done ++ bsrcs false x) rest H2 I1) with (e' := e2) (rds := r2)
+      as (exp2 & Md2 & Mb2 & I2 & P2).
+    + rewrite map_app, Hacc. reflexivity.
+    + rewrite <- app_assoc. exact HBS.
+    + exact P1.
+    + exact E2.
+    + exists exp2, Md2, Mb2. unfold vblock in *. cbn [fold_left]. rewrite map_app.
+      rewrite <- (app_assoc acc), <- (app_assoc tr) in I2. rewrite <- (app_assoc done) in P2. unfold NS in I2. split. exact I2. exact P2.
+Qed.
+
 End U2.
 
 (* ---------- the initial state ---------- *)
@@ -2436,6 +2906,92 @@ Proof.
     - intros x Hx. cbn [last] in Hx. rewrite Hown in Hx. destruct Hx. }
   destruct (sem_block p [M0]) as [e1 r1] eqn:Es. cbn [snd] in Hread.
   destruct (top_block BS I0 lm HO HP HB' p exp0 [] [] [] s0 [M0] [] (others I0) M0 [] [] Hu H30 eq_refl) with (e' := e1) (rds := r1)
+    as (exp1 & Md1 & Mb1 & I1 & P1).
+  { rewrite app_nil_r. reflexivity. } { unfold pairs. rewrite Hck0. reflexivity. } { exact Es. }
+  cbn [app] in I1, P1. fold BS in P1. set (s1 := vblock true p (stack_of [lm]) s0) in *.
+  pose proof I1 as [HI1 _ HU1 HEU1 Hfin1 Hdyn1 _]. cbn [is_nil] in Hdyn1.
+  (* the report: an unused checker of the top scope *)
+  apply sort_by_In in Hrep. unfold scan_unused, scan_node, finish_deferred in Hrep. fold s1 in Hrep.
+  set (sF := fold_left (fun s d => let '(n, stk, ln) := d in check_load s (stack_of [lm]) stk n ln) (deferred s1) s1) in *.
+  pose proof (SameBut_fold (stack_of [lm]) (deferred s1) s1) as (ES & ME & EU). fold sF in ES, ME, EU.
+  rewrite stack_top in Hrep. set (T := l_b lm) in *.
+  unfold pop in Hrep.
+  assert (EsdF : forall j, scope_dict (with_deferred sF []) j = scope_dict s1 j) by (intro j; unfold scope_dict; cbn [scopes with_deferred]; rewrite ES; reflexivity).
+  rewrite EsdF in Hrep. apply report_unused_spec in Hrep as [Hrep|(k & c0 & Hk & Hunused & Hl & Hi)].
+  { cbn [unused with_deferred] in Hrep. rewrite EU, (u_unused _ _ _ _ _ _ _ HU1) in Hrep. destruct Hrep. }
+  unfold checker_at in Hunused, Hl, Hi. cbn [checkers with_deferred] in Hunused, Hl, Hi. fold ckd in Hunused, Hl, Hi.
+  assert (Hc0 : c0 < length (checkers sF)).
+  { rewrite (me_len _ _ ME). destruct (u_top _ _ _ _ _ _ _ HU1 _ _ Hk) as [_ [D|(c' & D & Hlt)]]. discriminate. injection D as <-. exact Hlt. }
+  (* the read: its checker is used in the end *)
+  assert (Hused : exists c, c < length (checkers sF) /\ c_line (nth c (checkers sF) ckd) = l /\
+                            c_imp (nth c (checkers sF) ckd) = i /\ c_used (nth c (checkers sF) ckd) = true).
+  { destruct (u_reads _ _ _ _ _ _ _ HU1 ln n l i Hread) as [(c & Hc & A & B & C)|[Hfinal (a & stk' & ln' & Hin & pre & post & E & Hpost)]].
+    - exists c. unfold checker_at in A, B, C. fold ckd in A, B, C. rewrite (me_len _ _ ME), (me_line _ _ ME), (me_imp _ _ ME).
+      repeat split; auto. apply (me_used _ _ ME). exact C.
+    - (* deferred: the final check finds the checker in the top scope *)
+      pose proof (i_env _ _ _ _ _ _ _ _ _ HI1) as HE1. destruct e1 as [|f [|? ?]]; try contradiction. cbn in HEU1. subst f.
+      destruct HE1 as [HE1a HE1b]. rewrite Hfin1 in HE1a.
+      assert (Hdyn : lookup_b n Md1 = Some (BImp l i)).
+      { destruct (u_stab _ _ _ _ _ _ _ HU1 n l i Hfinal) as [Hn|Hs]; auto. exfalso.
+        assert (Hne : lookup_b n (rev BS ++ others I0) <> None) by congruence.
+        apply HE1a in Hne. rewrite HB in Hne. rewrite <- Hdyn1 in Hn. revert Hn. apply HE1b. exact Hne. }
+      destruct (u_mod2 _ _ _ _ _ _ _ HU1 n l i Hdyn) as (c & Hc & A & B).
+      assert (Hclt : c < length (checkers s1)).
+      { destruct (u_top _ _ _ _ _ _ _ HU1 _ _ (dict_get_In' _ _ _ Hc)) as [_ [D|(c' & D & Hlt)]]. discriminate. injection D as <-. exact Hlt. }
+      exists c. unfold checker_at in A, B. fold ckd in A, B. rewrite (me_len _ _ ME), (me_line _ _ ME), (me_imp _ _ ME).
+      split. exact Hclt. split. exact A. split. exact B.
+      apply (finish_marks (stack_of [lm]) T n c (deferred s1) s1 a stk' ln' pre post Hin E); auto.
+      + intros j Hj. split. apply rootclosed_er. apply (sv_root _ (st_sinv _ _ _ _ _ (i_st _ _ _ _ _ _ _ _ _ HI1))).
+        apply dict_get_none_er. destruct (has (er s1) j n) eqn:Eh; auto. exfalso. apply (Hpost j Hj).
+        apply (st_sub _ _ _ _ _ (i_st _ _ _ _ _ _ _ _ _ HI1)). exact Eh.
+      + intros k' v' Hin'. apply (u_top _ _ _ _ _ _ _ HU1 _ _ Hin'). }
+  destruct Hused as (c & Hc & A & B & C).
+  assert (Hndp : NoDup (map (fun ck => (c_line ck, c_imp ck)) (checkers sF))).
+  { change (map (fun ck => (c_line ck, c_imp ck)) (checkers sF)) with (pairs sF). unfold sF. rewrite pairs_finish_fold, P1. exact Hnd. }
+  assert (Ecc : c = c0).
+  { eapply (NoDup_map_nth _ _ (fun ck => (c_line ck, c_imp ck)) (checkers sF) ckd); eauto. cbn. congruence. }
+  subst c0. congruence.
+Qed.
+
+(* ---------- unused_sound on stage 3 (comprehensions) ---------- *)
+Theorem u3_unused_sound : forall bi ns p, u3_block p = true -> star_free bi ns = true -> imports_once bi ns p = true ->
+  NoDup (imp_events (bsrcs_block false p)) ->
+  forall l i, In (l, i) (snd (finder bi ns true p)) ->
+  forall ln n, ~ In (ln, n, Bound (BImp l i)) (pysem bi ns p).
+Proof.
+  intros bi ns p Hu Hsf Honce Hnd l i Hrep ln n Hread.
+  set (BS := bsrcs_block false p). set (I0 := concat ns ++ bi).
+  pose proof (imports_once_Once bi ns p Honce) as HO. fold BS I0 in HO.
+  destruct (init_inv2 bi ns p Hsf) as (exp0 & lm & Hown & HB & Estk & HI & Hm0 & HTd & Hd0 & HP0).
+  pose proof (er_init bi ns) as Eer.
+  unfold finder in Hrep. unfold pysem in Hread.
+  destruct (init_state bi ns) as [stk s0]. cbn [fst snd] in *. subst stk.
+  set (M0 := module_frame bi ns p) in *.
+  assert (HP : forall y, In y (l_P lm) -> In y I0).
+  { intros y Hy. apply HP0 in Hy. unfold I0. rewrite in_app_iff in *. tauto. }
+  assert (HB' : l_B lm = map fst BS) by (rewrite HB; reflexivity).
+  assert (Hck0 : checkers s0 = []) by (rewrite <- Eer; reflexivity).
+  assert (Hun0 : unused s0 = []) by (rewrite <- Eer; reflexivity).
+  assert (H30 : Inv3 BS I0 lm exp0 lm [] [] [] [] s0 [M0] [] [] (others I0) M0).
+  { constructor.
+    - rewrite Eer. exact HI.
+    - reflexivity.
+    - constructor.
+      + intros j k v _ Hin. apply (sv_raw _ (st_sinv _ _ _ _ _ (i_st _ _ _ _ _ _ _ _ _ HI)) j k v Hin).
+      + intros k v Hin. rewrite HTd in Hin. destruct Hin.
+      + intros x c. rewrite HTd. discriminate.
+      + intros x l0 i0 H. apply lookup_b_others_other in H. discriminate.
+      + intros x. rewrite HTd. discriminate.
+      + intros x l0 i0 Hf. left. apply final_import_in in Hf. apply (HO _ _ _ Hf).
+      + intros x l0 i0 H. apply lookup_b_others_other in H. discriminate.
+      + exact Hun0.
+      + intros ? ? ? ? [].
+    - reflexivity.
+    - reflexivity.
+    - reflexivity.
+    - intros x Hx. cbn [last] in Hx. rewrite Hown in Hx. destruct Hx. }
+  destruct (sem_block p [M0]) as [e1 r1] eqn:Es. cbn [snd] in Hread.
+  destruct (top_block_s3 BS I0 lm HO HP HB' p exp0 [] [] [] s0 [M0] [] (others I0) M0 [] [] Hu H30 eq_refl) with (e' := e1) (rds := r1)
     as (exp1 & Md1 & Mb1 & I1 & P1).
   { rewrite app_nil_r. reflexivity. } { unfold pairs. rewrite Hck0. reflexivity. } { exact Es. }
   cbn [app] in I1, P1. fold BS in P1. set (s1 := vblock true p (stack_of [lm]) s0) in *.
